@@ -76,8 +76,10 @@ def examine_tyrving(case):
     if timed and c >= 6000:
         carriers.append(('m:ss.xx', mss(c)))
         carriers.append(('m.ss.xx', mss(c).replace(':', '.')))
+    sp = case.get('spelling', ev)           # the event as the caller spells it (normalises to the key)
     for name, perf in carriers:
-        _cmp(out, 'equals-table', sig, case, name, call(athlib.tyrving_score, g, age, ev, perf), want)
+        _cmp(out, 'equals-table', sig + (['caller-spelling'] if sp != ev else []), case, name,
+             call(athlib.tyrving_score, g, age, sp, perf), want)
     if case.get('comma'):
         # decimal comma: accepted by all branches; a running time without a '.' counts as hand-timed
         # by the library's own is_hand_timing convention (Python and JS alike)
@@ -112,8 +114,10 @@ def examine_qkids(case):
         carriers.append(('text1', '%d.%d' % (c // 100, (c % 100) // 10)))
     if timed and c >= 6000:
         carriers.append(('m:ss.xx', mss(c)))
+    sp = case.get('spelling', ev)
     for name, perf in carriers:
-        _cmp(out, 'equals-formula', ['qkids'], case, name, call(athlib.qkids_score, ct, ev, perf), want)
+        _cmp(out, 'equals-formula', ['qkids'] + (['caller-spelling'] if sp != ev else []), case, name,
+             call(athlib.qkids_score, ct, sp, perf), want)
     return out
 
 
@@ -537,5 +541,28 @@ def run(ctx):
             ctx.count()
             ctx.label('comma-carrier')
             ctx.violations(examine({'kind': 'tyrving', 'gender': g, 'event': ev, 'age': age, 'centi': c, 'comma': True}))
+    # caller spellings of the keys (padded, lower case, suffix / zero variants that normalise to the key): same points
+    from checks.c05 import caller_spellings
+    rng = random.Random(derive_seed(ctx.seed, 'C11-spellings'))
+    for g, tab in sorted(junior.tyrving_tables().items()):
+        for ev, params in tab.items():
+            if not athlib.check_event_code(ev):
+                continue
+            age = junior.tyrving_ages(params)[0]
+            kind, args = params
+            base = int(junior._base(age, args[2] if kind == 'race' else args[1] if kind == 'jump' else args[1][0]) * 100)
+            for sp in caller_spellings(ev, rng, 3):
+                for c in (base - 37, base, base + 211):
+                    ctx.count()
+                    ctx.label('caller-spelling')
+                    ctx.violations(examine({'kind': 'tyrving', 'gender': g, 'event': ev, 'age': age, 'centi': max(1, c), 'spelling': sp}))
+    for ct, tab in sorted(junior.qkids_tables().items()):
+        for ev, row in tab.items():
+            a, b = sorted((float(row[1]), float(row[2])))
+            for sp in caller_spellings(ev, rng, 3):
+                for c in (int(a * 100) - 150, int((a + b) * 50), int(b * 100) + 150):
+                    ctx.count()
+                    ctx.label('caller-spelling')
+                    ctx.violations(examine({'kind': 'qkids', 'comp': ct, 'event': ev, 'centi': max(0, c), 'spelling': sp}))
     run_shards(ctx, 'checks.c11', 'shard', payloads, disjoint=True)
     ctx.extra['tables'] = len(payloads)
